@@ -15,7 +15,7 @@ PROP = dict(
         dict(name="c13_gated", kind="pydriver", driver="oracle/c13_gated.py", env={"ASAN_OPTIONS": _ASAN},
              shards_quick=8, shards_thorough=16, timeout_quick=400, timeout_thorough=2400),
         # the same source without sanitizers: the deepest exhaustive level only (k=5 quick, k=6 thorough; ~5 us per
-        # history instead of ~90 us under ASan, where every query and deletion allocates a std::deque)
+        # history instead of ~90 us under ASan, where every query and deletion allocates a std::deque) + the tallest chains (kdchain_o2)
         dict(name="c13_kdtree_o2", src="harness/c13_kdtree.cc", deps=_DEPS, flavor="o2",
              shards_quick=8, shards_thorough=16, timeout_quick=400, timeout_thorough=2400),
     ],
@@ -43,6 +43,28 @@ PROP = dict(
           "(kdq2): every insertion sequence of k <= 3 (quick) / 4 (thorough) cells of the 3x3 grid x every one of the 25 points of the "
           "grid and its ring looked up, then every single mutation (erase_advance of every non-empty subset of the entries while "
           "iterating, erase of each entry, insert at each cell), then the same lookup first and the lookups of all cells. "
+          "Iterators: Iterator declares std::forward_iterator_tag, so a copy is an independent position, it++ returns the old position "
+          "and ++(it++) == it. Wherever the battery iterates it also walks to a position chosen by the case (every position of trees of up "
+          "to 8 entries where the fullest battery runs: after the insertions of every exhaustive block and at the end of small-grid "
+          "histories; one position per state elsewhere, a quarter of the states in the innermost exhaustive loops) by a mix of ++it / it++ / "
+          "continuing on the iterator it++ returned / continuing on an advanced copy, checks the iterator returned by it++ there (equal to "
+          "a copy taken before, designates the old entry, ++ of it equals the incremented iterator) and walks the returned iterator, the "
+          "earlier copy and the incremented iterator to end() one after the other, with ++c and with *c++: each must visit exactly what "
+          "the plain walk visits from that position. Two thirds of the erase_advance sweeps mix the same stepping styles and call "
+          "erase_advance on a copy that is assigned back (an iterator other than the one handed to erase_advance is never used again "
+          "before it is assigned to). Subcheck kdchain (tall chains, ASan build and unsanitized build): the tree never rebalances, so n "
+          "entries inserted in a monotone order are a chain n levels deep - ascending diagonal (all after_or_equal), descending (all "
+          "before), n entries at one point, ascending then half of them at the deepest point, zigzag (after / before alternately), "
+          "staircase (one axis grows per step, the others tie), 2-D and 3-D. The whole case runs on a thread created with a 128..512 KiB "
+          "stack (default sizes of secondary threads: musl 128 KiB, macOS 512 KiB): n inserts; size + iteration + iterator positions; "
+          "at/exists of both ends, the middle, chosen entries and absent points; within/exists(low,high) of the whole range, empty, "
+          "inverted, single-cell, segment and slab boxes; then (unless the case says 'destroy full') erase(point,value) of the root, the "
+          "deepest entry, the middle and five chosen entries, erases of absent entries, an erase_advance sweep removing every "
+          "(n/24)-th entry it meets (everything the sweep meets, stepped over or erased, must be the model's multiset), the queries "
+          "again; finally the tree is destroyed on that thread and the heap balance is checked. Any operation whose stack use grows with "
+          "the height of the tree faults there (ASan: stack-overflow; unsanitized: SIGSEGV) and the driver attributes the crash to the "
+          "case. Every quick run: each shape once with 12000 (ASan) / 24000 (unsanitized) entries on 256 KiB, plus 8 generated cases per "
+          "build with 6000..16000 / 10000..40000 entries (thorough: up to 30000 / 80000; one case in five is a short chain). "
           "Distinct = distinct case encodings (hash)."),
     assumptions=["single-threaded use", "at() of an absent point throws std::out_of_range",
                  "in the exhaustive blocks the full battery runs after the insertions and after those erases that reach a state for "
@@ -52,20 +74,32 @@ PROP = dict(
                  "uint64_t coordinates obtained from the integer grid through a strictly increasing map (order, ties and half-open boxes carry "
                  "over exactly; double coordinates are finite, |x| < 250; no NaN)",
                  "lookups are const operations: a history may interleave them with the mutations in any order and every answer must agree "
-                 "with the linear scan at that moment"],
+                 "with the linear scan at that moment",
+                 "Iterator is a forward iterator as it declares (iterator_category = std::forward_iterator_tag): copies are independent "
+                 "positions over an unchanged tree and it++ returns the old position (multipass guarantee); after erase_advance(it) only `it` "
+                 "is used - what happens to other iterators is left open and never asserted",
+                 "'safe in every state' includes tall trees: the operations the property names (insert, erase, erase_advance, iteration, at, "
+                 "exists, within, exists(low,high), destruction) must work on a chain of up to 16000 (ASan) / 40000 entries (quick; 30000 / "
+                 "80000 thorough) within a 128 KiB thread stack, i.e. with stack use that does not grow with the height of the tree; depth() "
+                 "(recursive by design, not named by the property) is not called",
+                 "a chain case asserts nothing about the tree's internal shape: that the insertion orders really give one chain is recorded "
+                 "as a class label (breadth-first iteration order = insertion order), not checked"],
     min_evaluations_quick=100000,
-    min_per_check_quick={"kdq2": 100000, "kdq3": 3000},
+    min_per_check_quick={"kdq2": 100000, "kdq3": 3000, "kdchain": 12, "kdchain_o2": 12},
     engine="rapidcheck + exhaustive enumerators",
     technique=("model-based stateful testing: exhaustive enumeration of insertion sequences x erase orders on a 3x3 grid + rapidcheck "
                "random histories against a brute-force multiset with a full query battery after every mutation, plus histories whose lookups "
                "are generated operations themselves (order and subset vary), tree shapes built by construction (deep combs) and double / "
-               "uint64_t coordinate instantiations; ASan/UBSan at "
+               "uint64_t coordinate instantiations; forward-iterator laws (copies, it++, ++(it++) == it) checked at chosen / all positions and "
+               "mixed stepping styles in the erase_advance sweeps; resource-scaled cases: chains of 10^4..10^5 levels built, queried, erased "
+               "from and destroyed on a thread with a 128..512 KiB stack (stack overflow = crash attributed to the case); ASan/UBSan at "
                "destruction, per-history heap-block balance + LeakSanitizer; compile probe for the never-instantiated emplace"),
     level_text=("Exploration: every history runs the real template (ASan+UBSan build of the working tree) next to a plain vector and "
                 "asks every kind of query after every mutation; all histories of the stated shape on the 3x3 grid are enumerated, "
                 "larger grids, 3-D points and interleaved insert/erase/sweep histories are sampled. It finds any lost, duplicated or "
-                "phantom entry, wrong erase result, skipped or repeated entry of an erase_advance sweep, unsafe destruction or leak "
-                "with a witness in those scopes; it is not a proof for arbitrary point sets."),
+                "phantom entry, wrong erase result, skipped or repeated entry of an erase_advance sweep, iterator copy or post-increment "
+                "that does not continue like the original, unsafe destruction or leak with a witness in those scopes, and stack use "
+                "proportional to the tree height (up to the chain depths stated in the rule); it is not a proof for arbitrary point sets."),
     level_note=("Trusts the compiler, libstdc++, the sanitizers and phosg::Vector2/Vector3 (at(), ==) as coordinate carriers; "
                 "the non-trivial rule is measured from the model (coordinate sharing), not from the tree's actual shape."),
 )
